@@ -166,8 +166,8 @@ theorem toRunning_chain (cfg : Cfg) (e : Env) (s : S) : Chain s (toRunning cfg e
   cases err with
   | some e => simp [toRunning, guard, Chain, replay]
   | none =>
-  cases hs : p.state <;> cases hg : (transition_g10 p cfg e && transition_g11 p cfg e) <;>
-    simp [Chain, toRunning, changeState, assertIn, emit, setP, guard, replay, edge, intoUnknown, hs, hg,
+  cases hs : p.state <;> cases h10 : transition_g10 p cfg e <;> cases h11 : transition_g11 p cfg e <;>
+    simp [Chain, toRunning, changeState, assertIn, emit, setP, guard, replay, edge, intoUnknown, hs, h10, h11,
       transition_a4, transition_a5, transition_c0, transition_c1_0,
       change_state_g0, change_state_g1, change_state_a0, change_state_a2, change_state_a4, change_state_a5, signallableStates]
 
